@@ -72,6 +72,9 @@ class MessageMap;
  * Defines parameters of a message sent or received on the bus.
  */
 class Message : public AttributedItem {
+#ifdef EBUSD_VERIF
+  friend struct VerifAccess;  // verification harness access (no behaviour change)
+#endif
   friend class MessageMap;
  public:
   /**
@@ -695,6 +698,9 @@ class Message : public AttributedItem {
  * A chained @a Message that needs more than one read/write on the bus to collect/send the data.
  */
 class ChainedMessage : public Message {
+#ifdef EBUSD_VERIF
+  friend struct VerifAccess;  // verification harness access (no behaviour change)
+#endif
  public:
   /**
    * Construct a new instance.
@@ -814,6 +820,9 @@ struct compareMessagePriority {
  */
 class MessagePriorityQueue
   : public priority_queue<Message*, vector<Message*>, compareMessagePriority> {
+#ifdef EBUSD_VERIF
+  friend struct VerifAccess;  // verification harness access (no behaviour change)
+#endif
  public:
   /**
    * Add data to the queue and ensure it is contained only once.
@@ -847,6 +856,9 @@ class MessagePriorityQueue
  * An abstract condition based on the value of one or more @a Message instances.
  */
 class Condition {
+#ifdef EBUSD_VERIF
+  friend struct VerifAccess;  // verification harness access (no behaviour change)
+#endif
  public:
   /**
    * Construct a new instance.
@@ -939,6 +951,9 @@ class Condition {
  * A simple @a Condition based on the value of one @a Message.
  */
 class SimpleCondition : public Condition {
+#ifdef EBUSD_VERIF
+  friend struct VerifAccess;  // verification harness access (no behaviour change)
+#endif
  public:
   /**
    * Construct a new instance.
@@ -1122,6 +1137,9 @@ class SimpleStringCondition : public SimpleCondition {
  * A @a Condition combining two or more @a SimpleCondition instances with a logical and.
  */
 class CombinedCondition : public Condition {
+#ifdef EBUSD_VERIF
+  friend struct VerifAccess;  // verification harness access (no behaviour change)
+#endif
  public:
   /**
    * Construct a new instance.
@@ -1349,6 +1367,9 @@ class AddAttributes {
  * Holds a map of all known @a Message instances.
  */
 class MessageMap : public MappedFileReader {
+#ifdef EBUSD_VERIF
+  friend struct VerifAccess;  // verification harness access (no behaviour change)
+#endif
  public:
   /**
    * Construct a new instance.
